@@ -101,9 +101,9 @@ HostFor(h, X) ==
     [] h = "type" -> IF c = "range" /\ HasDecimal(Toks(X.arg)) THEN St("type", "decimal64", <<Lf("fraction-digits", "4")>>)
                      ELSE Lf("type", TypeFor(c))
     [] h = "list" -> IF c = "key" THEN St("list", "p1", IF ArgVerdict("key", X.arg) = "valid" THEN LeavesFor(IF ItemNames(X.arg) = {} THEN {"k"} ELSE ItemNames(X.arg))
-                                                        ELSE <<St("leaf", "k", <<TypeStr>>)>>)
+                                                        ELSE LeavesFor(ItemNames(X.arg) \cup {"k"}))
                      ELSE IF c = "unique" THEN St("list", "p1", <<Lf("key", "k"), St("leaf", "k", <<TypeStr>>)>>
-                                                   \o (IF ArgVerdict("unique", X.arg) = "valid" THEN LeavesFor(ItemNames(X.arg) \ {"k"}) ELSE << >>))
+                                                   \o LeavesFor(ItemNames(X.arg) \ {"k"}))
                      ELSE Mk("list", 1, "module")
     [] h = "deviation" -> Lf("deviation", "/tl1")
     [] OTHER -> Mk(h, 1, HostKw(h))
@@ -129,19 +129,28 @@ AllStmts(t) == {t} \cup UNION {AllStmts(t.subs[i]) : i \in 1..Len(t.subs)}
 \* local name of an identifier reference with our own prefix (or none); "" if it is not ours
 Local(a) == LET ps == Split(Toks(a), {":"}) IN
             IF ~IsNodeId(Toks(a)) THEN "" ELSE IF Len(ps) = 1 THEN a ELSE IF Join(ps[1]) = "p" THEN Join(ps[2]) ELSE ""
+\* the name an ill-formed reference would resolve to if a lenient parser let it through (empty pieces dropped):
+\* the template defines it too, so that a wrongly accepted argument is not rescued by an unrelated "not found"
+LenientLocal(a) == LET ps == NonEmpty(Split(Toks(a), {":"})) IN
+  IF Len(ps) \in {1, 2} /\ (\A i \in 1..Len(ps) : IsIdent(ps[i])) /\ (Len(ps) = 1 \/ Join(ps[1]) = "p") THEN Join(ps[Len(ps)]) ELSE ""
+StepNames(a) == LET st == NonEmpty(Split(Toks(a), {"/"})) IN [i \in 1..Len(st) |-> LenientLocal(Join(st[i]))]
+RECURSIVE Chain(_)
+Chain(ns) == St("container", ns[1], IF Len(ns) = 1 THEN << >> ELSE <<Chain(Tail(ns))>>)
 GroupingFor(g) ==
   IF g \in {"g1", "g2"} THEN
     LET k == SubSeq(g, 2, 2) IN
-    St("grouping", g, <<St("leaf", "gl" \o k, <<TypeStr>>), Lf("container", "gc" \o k), St("leaf-list", "gll" \o k, <<TypeStr>>)>>)
+    St("grouping", g, <<St("leaf", "gl" \o k, <<TypeStr>>), St("container", "gc" \o k, <<Lf("container", "gc" \o k)>>), St("leaf-list", "gll" \o k, <<TypeStr>>)>>)
   ELSE St("grouping", g, <<St("leaf", "gx", <<TypeStr>>)>>)
 DefFor(s) ==        \* set of definitions statement s needs
-  CASE s.kw = "uses" /\ Local(s.arg) # "" -> {GroupingFor(Local(s.arg))}
-    [] s.kw = "if-feature" /\ Local(s.arg) # "" -> {Lf("feature", Local(s.arg))}
-    [] s.kw = "base" /\ Local(s.arg) # "" -> {Lf("identity", Local(s.arg))}
-    [] s.kw = "type" /\ Local(s.arg) # "" /\ Local(s.arg) \notin Builtin -> {St("typedef", Local(s.arg), <<TypeStr>>)}
+  CASE s.kw = "uses" /\ LenientLocal(s.arg) # "" -> {GroupingFor(LenientLocal(s.arg))}
+    [] s.kw = "if-feature" /\ LenientLocal(s.arg) # "" -> {Lf("feature", LenientLocal(s.arg))}
+    [] s.kw = "base" /\ LenientLocal(s.arg) # "" -> {Lf("identity", LenientLocal(s.arg))}
+    [] s.kw = "type" /\ LenientLocal(s.arg) # "" /\ LenientLocal(s.arg) \notin Builtin -> {St("typedef", LenientLocal(s.arg), <<TypeStr>>)}
     [] s.kw = ExtKw -> {St("extension", "ext", <<Lf("argument", "a")>>)}
     [] s.kw \in {"augment", "deviation"} /\ s.arg = "/tc" -> {Lf("container", "tc")}
     [] s.kw \in {"deviation", "path"} /\ Len(s.arg) = 4 /\ SubSeq(s.arg, 1, 3) = "/tl" -> {St("leaf", SubSeq(s.arg, 2, 4), <<TypeStr>>)}
+    [] s.kw \in {"augment", "deviation"} /\ Len(s.arg) >= 1 /\ SubSeq(s.arg, 1, 1) = "/" /\ Len(StepNames(s.arg)) >= 1 /\ (\A i \in 1..Len(StepNames(s.arg)) : StepNames(s.arg)[i] # "")
+         -> {Chain(StepNames(s.arg))}
     [] OTHER -> {}
 Defined(root, d) == \E i \in 1..Len(root.subs) : root.subs[i].kw = d.kw /\ root.subs[i].arg = d.arg
 Complete(root) ==
@@ -455,13 +464,13 @@ GramAlphabet(kind) ==
     [] kind \in {"range", "length"} -> {"1", ".", "|", " "}
     [] kind = "key" -> {" ", "k", "j", ":"}
     [] kind = "unique" -> {" ", "/", "k", "j"}
-    [] kind = "date" -> {"2020", "01", "-", "1"}
+    [] kind = "date" -> {"2020", "01", "-"}
     [] kind = "idref" -> {"a", ":", "p"}
     [] kind = "identifier" -> {"a", "-", ".", "_", "1", ":"}
     [] kind \in {"integer", "nonneg", "maxel", "fracdigits"} -> {"0", "1", "8", "-", "+"}
     [] OTHER -> {}
 GramBound(kind, full) ==
-  CASE kind \in {"absnode", "descnode"} -> IF full THEN 7 ELSE 6
+  CASE kind \in {"absnode", "descnode"} -> IF full THEN 7 ELSE 5
     [] kind \in {"range", "length"} -> IF full THEN 6 ELSE 5
     [] kind \in {"key", "unique"} -> IF full THEN 5 ELSE 4
     [] kind = "date" -> IF full THEN 6 ELSE 5
